@@ -568,6 +568,8 @@ func runArgFuzz(r *hx.Result, cfg hx.Config, rng *rand.Rand) {
 	for _, cmd := range corpus {
 		a.runBatch([][]string{cmd})
 	}
+	// HTTP request paths of every segment count, with and without tile extensions
+	a.runHTTPPaths(cfg, rand.New(rand.NewSource(cfg.Seed^0x19)))
 
 	// skeleton mutants, pipelined
 	covered := map[string]bool{}
